@@ -93,6 +93,12 @@ Definition run_C09 (i : term) : term :=
                      else TS "any") (gl (gn i 2)))]
   else if String.eqb op "cli" then
     if gz (gn i 3) =? 0 then TL [TS "error"] else TL [TS "any"]
+  else if String.eqb op "symmode" then
+    match symbolize_mode (gs (gn i 1)) with
+    | Ok (n, label) => TL [TS "ok"; TZ n; TS label]
+    | Err => TL [TS "error"]
+    | Panic s => TL [of_outcome_panic s]
+    end
   else TL [TS "unknown-op"].
 
 (* classes >= 900: comparison skipped.  900 = a line or sample type holds bytes >= 0x80 (the model's
@@ -125,6 +131,9 @@ Definition cls_C09 (i : term) : list Z :=
     f25 (gn i 4) (existsb (fun rq => String.eqb (gs (gn rq 0)) "/source") (gl (gn i 2)))
   else if String.eqb op "cli" then
     f25 (gn i 4) (existsb (contains_sub "weblist") (gss (gn i 1) ++ gss (gn i 2))%list)
+  else if String.eqb op "symmode" then
+    (* strings.ToLower beyond ASCII is not modelled *)
+    if str_existsb is_high (gs (gn i 1)) then [900] else []
   else [].
 
 Definition skipped (i : term) : bool := existsb (fun c => 900 <=? c) (cls_C09 i).
@@ -175,6 +184,7 @@ Definition spec_C09 (i o : term) : bool :=
   else if String.eqb op "session" then spec_session (gss (gn i 4)) o
   else if String.eqb op "web" then spec_web (List.length (gl (gn i 2))) o
   else if String.eqb op "cli" then spec_cli o
+  else if String.eqb op "symmode" then spec_symmode o
   else false.
 
 Definition judge_C09 := judge_all run_C09 eqv_C09 spec_C09 cls_C09 0%Z.
